@@ -396,7 +396,7 @@ func (f *ledgerFam) genSig(r *hx.Run) types.Sig {
 
 func (f *ledgerFam) genTx(r *hx.Run, maxSigs int) *types.Transaction {
 	codeLen := []int{0, 1, 5, 40, 0xfc, 0xfd, 300}[r.Rng.Intn(7)]
-	if r.Rng.Chance(1, 60) {
+	if r.Rng.Chance(1, 150) {
 		codeLen = 0x10000 + r.Rng.Intn(3)
 	}
 	tx := &types.Transaction{Version: 0, TxType: types.Invoke, Nonce: uint32(r.Rng.U64B()), ChainID: r.Rng.U64B(), GasLimit: r.Rng.U64B(),
@@ -563,7 +563,11 @@ func (f *ledgerFam) Gen(r *hx.Run) {
 		r.Nontrivial(fmt.Sprintf("tx/%d/%d/%s", len(tx.Sigs), lenBucket(len(raw)), outClass(out)))
 		r.Hist("tx.sigs." + strconv.Itoa(len(tx.Sigs)))
 		// malformed variants of this transaction
-		for j := 0; j < r.Pick(6, 12); j++ {
+		nmut := r.Pick(6, 12)
+		if len(raw) > 20000 {
+			nmut = 1
+		}
+		for j := 0; j < nmut; j++ {
 			m := mutate(r, raw)
 			out := r.Do(fmt.Sprintf("tx %s %s", hx.Hex(m), keyOracle(m)))
 			r.Hist("tx.malformed." + outClass(out))
